@@ -74,13 +74,21 @@ def spec_table():
 # ---------------------------------------------------------------------------------------------------
 # native specification of the tagging contracts
 
+def own_tzid(tz):
+    """the zone id of a tzinfo of the catalogue, read off the object itself (zoneinfo: .key, pytz: .zone) - not through the library"""
+    if tz is None:
+        return None
+    if tz is timezone.utc:
+        return "UTC"
+    return getattr(tz, "key", None) or getattr(tz, "zone", None)
+
+
 def tzid_expected(dt):
-    from icalendar.timezone.tzid import tzid_from_dt
     if isinstance(dt, tuple) and dt:
         dt = dt[0]               # a period lies in the zone of its start
     if not isinstance(dt, (datetime, time)):
         return None
-    t = tzid_from_dt(dt)
+    t = own_tzid(dt.tzinfo)
     return None if t is None or t == "UTC" else t
 
 
@@ -188,7 +196,7 @@ def check_period(provider):
                 fails.append({"witness": {"call": "vPeriod", "value": repr((a, b)), "provider": provider},
                               "detail": f"vPeriod({(a, b)!r}).params = {dict(p.params)}, contract: {exp}"})
             if not p.by_duration and p.end.tzinfo is not None:
-                from icalendar.timezone.tzid import tzid_from_dt
+                tzid_from_dt = lambda x: own_tzid(x.tzinfo)  # noqa: E731
                 utc = lambda x: x.astimezone(timezone.utc)         # (== between zones is never true inside a fold: PEP 495)
                 if tzid_from_dt(p.end) != tzid_from_dt(p.start) or utc(p.end) != utc(b):
                     fails.append({"witness": {"call": "vPeriod", "value": repr((a, b)), "provider": provider},
